@@ -270,11 +270,12 @@ def _invert(test: ast.AST) -> ast.AST:
     return ast.UnaryOp(op=ast.Not(), operand=test)
 
 
-def structural_twins(repo: str, rel: str, families: tuple[str, ...] = ("invert-if", "temp-return", "split-and", "flip-compare", "early-continue", "comp-to-loop", "swap-independent", "inline-temp")) -> list[tuple[str, dict[str, str]]]:
+def structural_twins(repo: str, rel: str, families: tuple[str, ...] = ("invert-if", "temp-return", "split-and", "flip-compare", "early-continue", "comp-to-loop", "swap-independent", "inline-temp", "temp-test")) -> list[tuple[str, dict[str, str]]]:
     """(description, overlay): one twin per site.
 
     swap-independent  ``a = e1; b = e2`` -> ``b = e2; a = e1``  (adjacent, effect-free, mutually independent)
     inline-temp  ``t = e; STMT(t)`` -> ``STMT(e)``  (t bound once, read once in the next statement, e effect-free)
+    temp-test    ``if c: ...`` -> ``_tst_tw = c; if _tst_tw: ...``  (c effect-free, not a bare name, not an elif)
 
     invert-if    ``if c: A else: B``  ->  ``if not c: B else: A``
     temp-return  ``return <expr>``    ->  ``_ret_tw = <expr>; return _ret_tw``
